@@ -308,15 +308,33 @@ def run (s : Script) (fuel : Nat) (c : Comp) (σ : St) : St × Res :=
 
 /-! ### The corresponding structured program -/
 
+/-- What a leaf call does to the registry, by phase: `init`/`execute` perform the declared
+actions, `require` checks the needed states, condition `init`/`require` do nothing. -/
+def effOf (ph : Phase) (acts : List Act) : Reg → Option Reg :=
+  match ph with
+  | .init => leafEff .init acts
+  | .exec => leafEff .exec acts
+  | .req => needEff acts
+  | _ => some
+
+/-- Atomic statements. -/
+inductive Op where
+  | prim (ev : Ev) (acts : List Act)   -- one leaf call
+  | counter0                            -- `Iterations := 0` in the current scope
+  | bump                                -- `Iterations += 1`
+
+def opRun (s : Script) : Op → St → St × Res
+  | .prim ev acts, σ => step s ev (effOf ev.1 acts) σ
+  | .counter0, σ => (newCounter σ, .ok)
+  | .bump, σ => bump σ
+
 inductive Stmt where
   | skip
-  | prim (ev : Ev) (eff : Reg → Option Reg)   -- one leaf call
-  | counter0                                   -- `Iterations := 0` in the current scope
-  | bump                                       -- `Iterations += 1`
+  | atom (o : Op)
   | seq (a b : Stmt)
   | while (c : Cond) (body : Stmt)
   | ite (c : Cond) (t e : Stmt)
-  | scoped (b : Stmt)                          -- `{ … }` : fresh child scope, always closed again
+  | scoped (b : Stmt)                  -- `{ … }` : fresh child scope, always closed again
 
 /-- `while` of the structured language (no built-in counter). -/
 def whileN (cond : St → St × CRes) (body : St → St × Res) : Nat → St → St × Res
@@ -329,9 +347,7 @@ def whileN (cond : St → St × CRes) (body : St → St × Res) : Nat → St →
 
 def srun (s : Script) (fuel : Nat) : Stmt → St → St × Res
   | .skip, σ => (σ, .ok)
-  | .prim ev eff, σ => step s ev eff σ
-  | .counter0, σ => (newCounter σ, .ok)
-  | .bump, σ => bump σ
+  | .atom o, σ => opRun s o σ
   | .seq a b, σ => andThen (srun s fuel a σ) (srun s fuel b)
   | .while c b, σ => whileN (condEval s c) (srun s fuel b) fuel σ
   | .ite c t e, σ =>
@@ -345,7 +361,7 @@ def srun (s : Script) (fuel : Nat) : Stmt → St → St × Res
 
 mutual
   def condProg (ph : Phase) : Cond → Stmt
-    | .leaf id => .prim (ph, id) some
+    | .leaf id => .atom (.prim (ph, id) [])
     | .all cs => condsProg ph cs
     | .any cs => condsProg ph cs
     | .not c => condProg ph c
@@ -356,9 +372,9 @@ end
 
 mutual
   def initProg : Comp → Stmt
-    | .leaf id acts => .prim (.init, id) (leafEff .init acts)
+    | .leaf id acts => .atom (.prim (.init, id) acts)
     | .block cs => initProgs cs
-    | .loop c b => .seq .counter0 (.seq (condProg .cinit c) (initProg b))
+    | .loop c b => .seq (.atom .counter0) (.seq (condProg .cinit c) (initProg b))
     | .branch c t e he => .seq (condProg .cinit c) (.seq (initProg t) (if he then initProg e else .skip))
     | .scope _ => .skip
   def initProgs : Comps → Stmt
@@ -368,7 +384,7 @@ end
 
 mutual
   def reqProg : Comp → Stmt
-    | .leaf id acts => .prim (.req, id) (needEff acts)
+    | .leaf id acts => .atom (.prim (.req, id) acts)
     | .block cs => reqProgs cs
     | .loop c b => .seq (condProg .creq c) (reqProg b)
     | .branch c t e he => .seq (condProg .creq c) (.seq (reqProg t) (if he then reqProg e else .skip))
@@ -380,9 +396,9 @@ end
 
 mutual
   def execProg : Comp → Stmt
-    | .leaf id acts => .prim (.exec, id) (leafEff .exec acts)
+    | .leaf id acts => .atom (.prim (.exec, id) acts)
     | .block cs => execProgs cs
-    | .loop c b => .seq (condProg .cinit c) (.while c (.seq (execProg b) .bump))
+    | .loop c b => .seq (condProg .cinit c) (.while c (.seq (execProg b) (.atom .bump)))
     | .branch c t e he => .ite c (execProg t) (if he then execProg e else .skip)
     | .scope b => .scoped (.seq (initProg b) (.seq (reqProg b) (execProg b)))
   def execProgs : Comps → Stmt
